@@ -17,8 +17,13 @@ def main(argv):
     except Exception as e:  # noqa
         print("HARNESS-ERROR cannot import twosigma.memento from %s: %r" % (core.REPO, e))
         return core.EXIT_HARNESS
-    mod = importlib.import_module("checks." + what.lower())
-    return core.main_check(mod, argv[1:])
+    try:
+        mod = importlib.import_module("checks." + what.lower())
+        return core.main_check(mod, argv[1:])
+    except Exception:  # noqa  (a bug in the machinery is never reported as a violation and never as success)
+        import traceback
+        print("HARNESS-ERROR property=%s %s" % (what, traceback.format_exc()[-2000:]))
+        return core.EXIT_HARNESS
 
 
 if __name__ == "__main__":
